@@ -10,10 +10,12 @@ import (
 	"crypto/x509"
 	"crypto/x509/pkix"
 	"encoding/json"
+	"encoding/pem"
 	"fmt"
 	"math/big"
 	mrand "math/rand"
 	"net/http"
+	"sort"
 	"strings"
 	"sync"
 	"time"
@@ -638,6 +640,21 @@ func c10(x *mon.Ctx) {
 			c.Resp[s.url] = world.Resp{H: good.H, B: body}
 			rcases = append(rcases, c)
 		}
+		if s.member == "" { // CRL slots: the CRL in PEM armour, whole and in pieces (an endpoint or a cache that serves "the other" encoding)
+			armoured := pem.EncodeToMemory(&pem.Block{Type: "X509 CRL", Bytes: good.B})
+			hd := "-----BEGIN X509 CRL-----"
+			for name, b := range map[string][]byte{
+				"pem": armoured, "pem-truncated-in-the-body": armoured[:len(armoured)/2], "pem-without-end-line": armoured[:len(armoured)-len("-----END X509 CRL-----\n")], "pem-begin-line-only": []byte(hd), "pem-begin-line-and-newline": []byte(hd + "\n"),
+				"pem-begin-line-then-garbage": []byte(hd + "\n!!!!\n"), "pem-leading-blank-lines": append([]byte("\n\n  "), armoured[:40]...), "pem-other-block-type": pem.EncodeToMemory(&pem.Block{Type: "CERTIFICATE", Bytes: good.B}),
+				"pem-with-headers": pem.EncodeToMemory(&pem.Block{Type: "X509 CRL", Headers: map[string]string{"Proc-Type": "4,ENCRYPTED"}, Bytes: good.B}), "pem-empty-block": []byte(hd + "\n-----END X509 CRL-----\n"), "pem-twice": append(append([]byte{}, armoured...), armoured...),
+				"pem-crlf": bytes.ReplaceAll(armoured, []byte("\n"), []byte("\r\n")), "pem-end-line-first": []byte("-----END X509 CRL-----\n" + hd),
+			} {
+				c := cs.Clone()
+				c.Class, c.Param = "hostile-crl", s.url+"#"+name
+				c.Resp[s.url] = world.Resp{H: good.H, B: b}
+				rcases = append(rcases, c)
+			}
+		}
 		if s.member == "" { // CRL slots: DER-ish garbage too
 			for i := 0; i < x.Pick(40, 2000); i++ {
 				rr := x.Rand(fmt.Sprint("crl", s.url, i))
@@ -688,6 +705,21 @@ func c10(x *mon.Ctx) {
 				c.Resp[d.url] = world.Resp{H: good.H, B: world.SignedBody(d.member, d.raw[:tok[0]]+v+d.raw[tok[1]:], w.PKI.TcbSign.Key)}
 				rcases = append(rcases, c)
 			}
+		}
+	}
+	// 3b'. the same for the STRUCTURE of correctly signed documents: every object member and every array of the TCB Info and of
+	//      the QE Identity (at every depth: levels, their tcb objects and component lists, the TDX module, the module identities
+	//      and THEIR level lists) removed, nulled, emptied, replaced by a value of another kind, and arrays cut to one element or
+	//      given a null / empty-object element — re-signed by the genuine signer
+	for _, d := range []struct{ url, member, raw string }{
+		{slots[0].url, "tcbInfo", w.Tcb.JSON()}, {slots[1].url, "enclaveIdentity", w.Qe.JSON()},
+	} {
+		good := cs.Resp[d.url]
+		for name, doc := range structuralVariants(d.raw, x.Quick()) {
+			c := cs.Clone()
+			c.Class, c.Param = "signed-hostile-document", fmt.Sprintf("%s#structure/%s", d.member, name)
+			c.Resp[d.url] = world.Resp{H: good.H, B: world.SignedBody(d.member, doc, w.PKI.TcbSign.Key)}
+			rcases = append(rcases, c)
 		}
 	}
 	// 3c. ONE options value over a sequence of worlds whose CRLs do and do not carry the optional extensions (cRLNumber,
@@ -978,6 +1010,130 @@ func scalarVariants(tok string) map[string]string {
 		out["as-number"] = "7"
 	} else {
 		out["as-string"] = `"` + tok + `"`
+	}
+	return out
+}
+
+// structuralVariants decodes a JSON document and returns re-encodings in which one container (an object member or an array, at
+// any depth) was removed / replaced / emptied. In the quick tier the sixteen-fold component lists are sampled.
+func structuralVariants(raw string, quick bool) map[string]string {
+	out := map[string]string{}
+	var root any
+	if json.Unmarshal([]byte(raw), &root) != nil {
+		return out
+	}
+	type step struct {
+		key string
+		idx int
+	}
+	var paths [][]step
+	var walk func(v any, p []step)
+	walk = func(v any, p []step) {
+		switch t := v.(type) {
+		case map[string]any:
+			keys := make([]string, 0, len(t))
+			for k := range t {
+				keys = append(keys, k)
+			}
+			sort.Strings(keys)
+			for _, k := range keys {
+				np := append(append([]step{}, p...), step{key: k})
+				paths = append(paths, np)
+				walk(t[k], np)
+			}
+		case []any:
+			for i := range t {
+				if quick && i > 1 && i < len(t)-1 {
+					continue
+				}
+				np := append(append([]step{}, p...), step{idx: i, key: ""})
+				paths = append(paths, np)
+				walk(t[i], np)
+			}
+		}
+	}
+	walk(root, nil)
+	clone := func() any {
+		var c any
+		_ = json.Unmarshal([]byte(raw), &c)
+		return c
+	}
+	for _, p := range paths {
+		label := ""
+		for _, st := range p {
+			if st.key != "" {
+				label += "." + st.key
+			} else {
+				label += fmt.Sprintf("[%d]", st.idx)
+			}
+		}
+		for _, edit := range []string{"removed", "null", "empty-array", "empty-object", "number", "string", "array-of-null", "array-of-empty-object", "first-element-only", "object-with-unknown-member"} {
+			doc := clone()
+			// walk to the parent
+			var parent any = doc
+			for _, st := range p[:len(p)-1] {
+				if st.key != "" {
+					parent = parent.(map[string]any)[st.key]
+				} else {
+					parent = parent.([]any)[st.idx]
+				}
+			}
+			last := p[len(p)-1]
+			var cur any
+			if last.key != "" {
+				cur = parent.(map[string]any)[last.key]
+			} else {
+				cur = parent.([]any)[last.idx]
+			}
+			_, isObj := cur.(map[string]any)
+			arr, isArr := cur.([]any)
+			if !isObj && !isArr && edit != "removed" && edit != "null" && edit != "empty-array" && edit != "empty-object" {
+				continue // scalars are varied token by token elsewhere
+			}
+			var nv any
+			remove := false
+			switch edit {
+			case "removed":
+				remove = true
+			case "null":
+				nv = nil
+			case "empty-array":
+				nv = []any{}
+			case "empty-object":
+				nv = map[string]any{}
+			case "number":
+				nv = 7
+			case "string":
+				nv = "x"
+			case "array-of-null":
+				nv = []any{nil}
+			case "array-of-empty-object":
+				nv = []any{map[string]any{}}
+			case "first-element-only":
+				if !isArr || len(arr) < 2 {
+					continue
+				}
+				nv = arr[:1]
+			case "object-with-unknown-member":
+				nv = map[string]any{"unknown": 1}
+			}
+			if last.key != "" {
+				if remove {
+					delete(parent.(map[string]any), last.key)
+				} else {
+					parent.(map[string]any)[last.key] = nv
+				}
+			} else {
+				if remove {
+					continue // (removing an array element is "first-element-only" and the level-order classes of C04 / C07)
+				}
+				parent.([]any)[last.idx] = nv
+			}
+			b, err := json.Marshal(doc)
+			if err == nil {
+				out[label+"="+edit] = string(b)
+			}
+		}
 	}
 	return out
 }
